@@ -565,6 +565,15 @@ fn reply_tapes(rng: &mut Rng, own: u16) -> Vec<(Vec<u8>, &'static str)> {
     v.push((refs::enc(own, 4, &[0x0F]), "reply_without_crlf_at_eof"));
     v.push((with_sentinel(b":0100FF040F\r\n".to_vec()), "reply_malformed"));
     v.push((with_sentinel(b"garbage\r\n".to_vec()), "reply_malformed"));
+    for (i, s) in crate::c03::MULTIBYTE.iter().enumerate().take(12) {
+        // a well-formed reply with one hex digit replaced by a multi-byte sequence (a non-ASCII digit, a look-alike letter)
+        let good = refs::enc_crlf(own, 4, &[0x0F]);
+        let p = 1 + (i % (good.len() - 3));
+        let mut l = good[..p].to_vec();
+        l.extend_from_slice(s);
+        l.extend_from_slice(&good[p + 1..]);
+        v.push((with_sentinel(l), "reply_malformed"));
+    }
     v.push((with_sentinel([refs::enc(own, 4, &[0x0F]), b"\n".to_vec()].concat()), "reply_bare_lf"));
     let mut bad = refs::enc(own, 4, &[0x0F]);
     let n = bad.len();
